@@ -470,7 +470,7 @@ theorem deser_pieces (hlen : ∀ x, (H x).length = 32) {P : PT → Prop} {n : WN
     have hh : (WN.hashRef (PT.hash H tc') tc'.weight).hashField H = (prune H c).hashField H := by
       rw [prune_hashField hr hpc hnil]; rfl
     simp only [hpieces, PT.shortChild, List.map_cons, List.cons_append, deserializeTrie,
-      deserializeNode_short H hlen k tc' hok.1, hrec, hh, ne_eq, not_true_eq_false, if_false, prune, e]
+      deserializeNode_short H hlen k tc' hok.1 hok.2.2.1, hrec, hh, ne_eq, not_true_eq_false, if_false, prune, e]
   | routing h ch w d tc f hr href hw hc ih =>
     intro hp hok _ _ fuel rest hf
     have e := (rep_calcHash (Rep.routing h ch w d tc f hr href hw hc) hp).2
@@ -504,7 +504,7 @@ theorem deser_pieces (hlen : ∀ x, (H x).length = 32) {P : PT → Prop} {n : WN
         funext j; simp [allNib]
       rw [hall] at hkids
       simp only [hpieces, if_true, PT.kid, List.map_cons, List.cons_append, List.map_flatMap, deserializeTrie,
-        deserializeNode_branch H hlen f hok.1, hkids, prune, e, ← hw]
+        deserializeNode_branch H hlen f hok.1 hok.2.keysNib, hkids, prune, e, ← hw]
 
 /-- the root check of `Deserialize` on the rebuilt trie -/
 theorem root_check {P : PT → Prop} {n : WN} {t : PT} (h : Rep H P n t) (hp : Proper n) (pairs rest : List PairD)
